@@ -59,9 +59,13 @@ example : jitRepr (.Bool true) = some ⟨.I8, 1⟩ ∧ eval_Not true (.Bool true
 
 /-- `IntCmp`: `Eq`/`Ne` through the generated `PartialEq for IrValue`, the unsigned comparisons
     through `as_u64`, the signed ones through `as_i64`, against `icmp cc` with the generated
-    condition-code table.  `hty`: the verifier accepted the `icmp` (same operand types). -/
-theorem eval_IntCmp_agrees (dbg : Bool) (cmp : IntCmp) (l r : IrValue) (cl cr : CVal)
-    (hl : jitRepr l = some cl) (hr : jitRepr r = some cr) (hty : cl.ty = cr.ty) :
+    condition-code table.  `hty`, `hnf`: the verifier accepted the `icmp` (same operand types, of the
+    integer class).  `hnf` is not needed on the pinned tree (no arm of `PartialEq` completes on floats);
+    it is what keeps the statement true — and this theorem checking — when an IEEE float arm is added
+    to `PartialEq for IrValue` (`eq_ok_general`): `icmp` on floats never gets past the verifier. -/
+theorem eval_IntCmp_agrees [FloatOps] (dbg : Bool) (cmp : IntCmp) (l r : IrValue) (cl cr : CVal)
+    (hl : jitRepr l = some cl) (hr : jitRepr r = some cr) (hty : cl.ty = cr.ty)
+    (hnf : cl.ty.isFloat = false) :
     Agrees (eval_IntCmp dbg cmp l r) (cg_IntCmp dbg cmp cl cr) := by
   apply agrees_of_ok; intro v hv
   cases cmp <;> simp only [eval_IntCmp, Ev.ret, Res.bind_eq_ok_iff, Res.pure_eq, Res.ok.injEq] at hv
@@ -95,32 +99,39 @@ theorem eval_IntCmp_agrees (dbg : Bool) (cmp : IntCmp) (l r : IrValue) (cl cr : 
     simp [intCmpSpec, BitVec.slt, ← decide_not, Int.not_lt]
   case Eq =>
     obtain ⟨b, hb', rfl⟩ := hv
-    obtain ⟨ty, w, hw, hf, x, y, rx, ry, hxy⟩ := eq_ok hb'
-    rw [hl] at rx; rw [hr] at ry; simp only [Option.some.injEq] at rx ry; subst rx ry
     refine ⟨_, jitRepr_Bool _, ?_⟩
-    rw [cg_IntCmp_int _ _ _ hf hw, hxy]; rfl
+    cases eq_ok_general hb' with
+    | int ty w hw hf x y rx ry hxy =>
+      rw [hl] at rx; rw [hr] at ry; simp only [Option.some.injEq] at rx ry; subst rx ry
+      rw [cg_IntCmp_int _ _ _ hf hw, hxy]; rfl
+    | f32 x y rx ry hxy => subst rx; rw [jitRepr_F32] at hl; cases hl; simp [CTy.isFloat] at hnf
+    | f64 x y rx ry hxy => subst rx; rw [jitRepr_F64] at hl; cases hl; simp [CTy.isFloat] at hnf
   case Ne =>
     obtain ⟨b, ⟨b', hb', rfl⟩, rfl⟩ := hv
-    obtain ⟨ty, w, hw, hf, x, y, rx, ry, hxy⟩ := eq_ok hb'
-    rw [hl] at rx; rw [hr] at ry; simp only [Option.some.injEq] at rx ry; subst rx ry
     refine ⟨_, jitRepr_Bool _, ?_⟩
-    rw [cg_IntCmp_int _ _ _ hf hw, hxy]; rfl
+    cases eq_ok_general hb' with
+    | int ty w hw hf x y rx ry hxy =>
+      rw [hl] at rx; rw [hr] at ry; simp only [Option.some.injEq] at rx ry; subst rx ry
+      rw [cg_IntCmp_int _ _ _ hf hw, hxy]; rfl
+    | f32 x y rx ry hxy => subst rx; rw [jitRepr_F32] at hl; cases hl; simp [CTy.isFloat] at hnf
+    | f64 x y rx ry hxy => subst rx; rw [jitRepr_F64] at hl; cases hl; simp [CTy.isFloat] at hnf
 
 
 /-- non-vacuity: `-1i8 < 1i8` signed is true on both sides, and as unsigned bit patterns the
     evaluator refuses (`as_u64` on a signed tag panics). -/
-example : eval_IntCmp true .SLt (.I8 (.ofInt _ _ (-1))) (.I8 (.ofInt _ _ 1)) = .ok (.Bool true)
-    ∧ eval_IntCmp true .ULt (.I8 (.ofInt _ _ (-1))) (.I8 (.ofInt _ _ 1)) = .panic := by decide
+example [FloatOps] : eval_IntCmp true .SLt (.I8 (.ofInt _ _ (-1))) (.I8 (.ofInt _ _ 1)) = .ok (.Bool true)
+    ∧ eval_IntCmp true .ULt (.I8 (.ofInt _ _ (-1))) (.I8 (.ofInt _ _ 1)) = .panic := ⟨by rfl, by rfl⟩
 
 /-- the same-type hypothesis is necessary: on `1u8 < 2u16` the evaluator completes (it widens both
     to `u64`) while Cranelift's verifier rejects the `icmp`. -/
-theorem IntCmp_needs_same_type :
+theorem IntCmp_needs_same_type [FloatOps] :
     ¬ Agrees (eval_IntCmp false .ULt (.U8 (.ofInt _ _ 1)) (.U16 (.ofInt _ _ 2)))
         (cg_IntCmp false .ULt ⟨.I8, 1⟩ ⟨.I16, 2⟩)
     ∧ jitRepr (.U8 (.ofInt _ _ 1)) = some ⟨.I8, 1⟩ ∧ jitRepr (.U16 (.ofInt _ _ 2)) = some ⟨.I16, 2⟩ := by
   refine ⟨?_, by decide, by decide⟩
   rintro (h | ⟨v, c, _, _, h3⟩)
-  · exact absurd h (by decide)
+  · have h1 : eval_IntCmp false .ULt (.U8 (.ofInt _ _ 1)) (.U16 (.ofInt _ _ 2)) = .ok (.Bool true) := by rfl
+    rw [h1] at h; cases h
   · exact absurd h3 (by rw [cg_IntCmp_mixed _ _ _ _ (by decide)]; exact fun h => by cases h)
 
 /-! ### wrapping arithmetic -/
@@ -330,9 +341,11 @@ example : eval_Negate true (.I16 (.ofInt _ _ 5)) = .ok (.I16 (.ofInt _ _ (-5)))
   ⟨by rfl, by rfl, by rfl⟩
 
 /-- `FloatCmp`: `Lt Le Gt Ge` compare after `as_f64` (an `f32` is promoted, which preserves every
-    comparison: `[FloatLaws]`); `Eq`/`Ne` go through `PartialEq for IrValue`, which has no float arm,
-    so the evaluator stops loudly.  `hty`, `hfl`: the verifier accepted the `fcmp` (equal float
-    operand types). -/
+    comparison: `[FloatLaws]`); `Eq`/`Ne` go through `PartialEq for IrValue` (`eq_ok_general`: a
+    completed `==` is bit equality of integer-like operands or IEEE equality of floats of one type —
+    on the pinned tree there is no float arm at all, so the evaluator stops loudly; an arm that
+    compares `to_bits()` is NOT admitted: `bit_eq_is_not_fcmp_eq`).  `hty`, `hfl`: the verifier
+    accepted the `fcmp` (equal float operand types). -/
 theorem eval_FloatCmp_agrees [FloatLaws] (dbg : Bool) (cmp : FloatCmp) (l r : IrValue) (cl cr : CVal)
     (hl : jitRepr l = some cl) (hr : jitRepr r = some cr) (hty : cl.ty = cr.ty)
     (hfl : cl.ty.isFloat = true) :
@@ -341,12 +354,22 @@ theorem eval_FloatCmp_agrees [FloatLaws] (dbg : Bool) (cmp : FloatCmp) (l r : Ir
   cases cmp <;> simp only [eval_FloatCmp, Ev.ret, Res.bind_eq_ok_iff, Res.pure_eq, Res.ok.injEq] at hv
   case Eq =>
     obtain ⟨b, hb', rfl⟩ := hv
-    obtain ⟨ty, w, hw, hf, x, y, rx, ry, hxy⟩ := eq_ok hb'
-    rw [hl] at rx; cases rx; simp [hf] at hfl
+    refine ⟨_, jitRepr_Bool _, ?_⟩
+    cases eq_ok_general hb' with
+    | int ty w hw hf x y rx ry hxy => rw [hl] at rx; cases rx; simp [hf] at hfl
+    | f32 x y rx ry hxy =>
+      subst rx ry hxy; rw [jitRepr_F32] at hl hr; cases hl; cases hr; rw [cg_FloatCmp_f32]; rfl
+    | f64 x y rx ry hxy =>
+      subst rx ry hxy; rw [jitRepr_F64] at hl hr; cases hl; cases hr; rw [cg_FloatCmp_f64]; rfl
   case Ne =>
     obtain ⟨b, ⟨b', hb', rfl⟩, rfl⟩ := hv
-    obtain ⟨ty, w, hw, hf, x, y, rx, ry, hxy⟩ := eq_ok hb'
-    rw [hl] at rx; cases rx; simp [hf] at hfl
+    refine ⟨_, jitRepr_Bool _, ?_⟩
+    cases eq_ok_general hb' with
+    | int ty w hw hf x y rx ry hxy => rw [hl] at rx; cases rx; simp [hf] at hfl
+    | f32 x y rx ry hxy =>
+      subst rx ry hxy; rw [jitRepr_F32] at hl hr; cases hl; cases hr; rw [cg_FloatCmp_f32]; rfl
+    | f64 x y rx ry hxy =>
+      subst rx ry hxy; rw [jitRepr_F64] at hl hr; cases hl; cases hr; rw [cg_FloatCmp_f64]; rfl
   all_goals
     obtain ⟨b, ⟨a, ha, c, hc, hb⟩, rfl⟩ := hv
     refine ⟨_, jitRepr_Bool _, ?_⟩
@@ -369,6 +392,96 @@ example (x y : F32) :
     eval_FloatCmp true .Lt (.F32 x) (.F32 y) = .ok (.Bool (F.lt64 (F.promote x.bits) (F.promote y.bits)))
     ∧ (CVal.f32 x.bits).ty = (CVal.f32 y.bits).ty ∧ (CVal.f32 x.bits).ty.isFloat = true :=
   ⟨rfl, rfl, rfl⟩
+
+/-! ### float equality: what an equality arm for floats may compute
+
+`FloatOps` leaves IEEE-754 uninterpreted, so "bit equality is not `fcmp eq`" cannot be a theorem about
+every instance.  `ieeeEq64`/`ieeeEq32` write IEEE-754 equality down on bit patterns (a NaN equals
+nothing, the two zeros are equal, everything else is equal iff the bits are); `FloatEqLaws` is the
+assumption that the instance's `eq` is that function (satisfiable: example below). -/
+
+def isNaN64 (a : BitVec 64) : Bool :=
+  (a &&& 0x7FF0000000000000#64 == 0x7FF0000000000000#64) && (a &&& 0x000FFFFFFFFFFFFF#64 != 0#64)
+def isZero64 (a : BitVec 64) : Bool := a &&& 0x7FFFFFFFFFFFFFFF#64 == 0#64
+def ieeeEq64 (a b : BitVec 64) : Bool := !isNaN64 a && !isNaN64 b && (a == b || (isZero64 a && isZero64 b))
+def isNaN32 (a : BitVec 32) : Bool :=
+  (a &&& 0x7F800000#32 == 0x7F800000#32) && (a &&& 0x007FFFFF#32 != 0#32)
+def isZero32 (a : BitVec 32) : Bool := a &&& 0x7FFFFFFF#32 == 0#32
+def ieeeEq32 (a b : BitVec 32) : Bool := !isNaN32 a && !isNaN32 b && (a == b || (isZero32 a && isZero32 b))
+
+class FloatEqLaws : Prop where
+  eq64_ieee : ∀ a b, F.eq64 a b = ieeeEq64 a b
+  eq32_ieee : ∀ a b, F.eq32 a b = ieeeEq32 a b
+
+omit F in
+/-- **the decision**: bit equality (`l.to_bits() == r.to_bits()`) coincides with IEEE equality on a
+    pair of `f64` bit patterns exactly when the pair is neither one NaN taken twice nor two different
+    non-NaN zeros (`+0.0` with `-0.0`). -/
+theorem bit_eq_eq_ieee_iff (a b : BitVec 64) :
+    (a == b) = ieeeEq64 a b ↔
+      ¬ (a = b ∧ isNaN64 a = true)
+      ∧ ¬ (a ≠ b ∧ isNaN64 a = false ∧ isNaN64 b = false ∧ isZero64 a = true ∧ isZero64 b = true) := by
+  by_cases hab : a = b
+  · subst hab; cases hn : isNaN64 a <;> simp [ieeeEq64, hn]
+  · cases hna : isNaN64 a <;> cases hnb : isNaN64 b <;> cases hza : isZero64 a <;> cases hzb : isZero64 b <;>
+      simp [ieeeEq64, hab, hna, hnb, hza, hzb]
+
+/-- witnesses of both exceptional classes (`+0.0`/`-0.0`, and the default quiet NaN with itself). -/
+example : ((0#64 == 0x8000000000000000#64) = false ∧ ieeeEq64 0#64 0x8000000000000000#64 = true)
+    ∧ ((0x7FF8000000000000#64 == 0x7FF8000000000000#64) = true
+        ∧ ieeeEq64 0x7FF8000000000000#64 0x7FF8000000000000#64 = false) := by decide
+
+/-- An evaluator whose `FloatCmp::Eq` arm completes with BIT equality does not agree with the
+    compiled `fcmp eq`: at `(+0.0, -0.0)` it completes with `false`, the JIT computes `true`; at
+    `(NaN, NaN)` it completes with `true`, the JIT computes `false` (and `Ne` mirrored).  This is what
+    `eq_ok_general` refuses to justify. -/
+theorem bit_eq_is_not_fcmp_eq [FloatEqLaws] (dbg : Bool) :
+    ¬ Agrees (.ok (.Bool (0#64 == 0x8000000000000000#64)))
+        (cg_FloatCmp dbg .Eq (CVal.f64 0#64) (CVal.f64 0x8000000000000000#64))
+    ∧ ¬ Agrees (.ok (.Bool (0x7FF8000000000000#64 == 0x7FF8000000000000#64)))
+        (cg_FloatCmp dbg .Eq (CVal.f64 0x7FF8000000000000#64) (CVal.f64 0x7FF8000000000000#64))
+    ∧ ¬ Agrees (.ok (.Bool (!(0x7FF8000000000000#64 == 0x7FF8000000000000#64))))
+        (cg_FloatCmp dbg .Ne (CVal.f64 0x7FF8000000000000#64) (CVal.f64 0x7FF8000000000000#64)) := by
+  refine ⟨?_, ?_, ?_⟩ <;> rw [cg_FloatCmp_f64] <;>
+    simp only [floatCmpSpec64, FloatEqLaws.eq64_ieee] <;>
+    exact not_agrees_of_ne (jitRepr_Bool _) (by decide)
+
+/-- non-vacuity: `FloatEqLaws` is satisfiable (an instance whose equalities ARE the IEEE ones). -/
+example : ∃ F : FloatOps, @FloatEqLaws F :=
+  let F0 : FloatOps :=
+   { add32 := fun a _ => a, sub32 := fun a _ => a, mul32 := fun a _ => a, div32 := fun a _ => a,
+     neg32 := id, add64 := fun a _ => a, sub64 := fun a _ => a, mul64 := fun a _ => a,
+     div64 := fun a _ => a, neg64 := id, promote := fun a => a.setWidth 64, demote := fun a => a.setWidth 32,
+     eq64 := ieeeEq64, lt64 := fun _ _ => false, le64 := fun _ _ => false,
+     eq32 := ieeeEq32, lt32 := fun _ _ => false, le32 := fun _ _ => false }
+  ⟨F0, @FloatEqLaws.mk F0 (fun _ _ => rfl) (fun _ _ => rfl)⟩
+
+/-- The positive side, for EVERY pair of float bit patterns and without any assumption on the
+    operand tags: if the evaluator's `FloatCmp::Eq` / `Ne` completes on two `f64` (`f32`) operands, it
+    completes with the instance's IEEE `eq` (its negation) — never with another answer.  On the
+    pinned tree the premise is never met (there is no float arm; "float equality stops" is
+    deliberately NOT a theorem: a correct IEEE arm must keep this module checking). -/
+theorem float_eq_completes_ieee (dbg : Bool) (x y : F64) (v : IrValue) :
+    (eval_FloatCmp dbg .Eq (.F64 x) (.F64 y) = .ok v → v = .Bool (F.eq64 x.bits y.bits))
+    ∧ (eval_FloatCmp dbg .Ne (.F64 x) (.F64 y) = .ok v → v = .Bool (!F.eq64 x.bits y.bits)) := by
+  constructor <;> intro hv <;>
+    simp only [eval_FloatCmp, Ev.ret, Res.bind_eq_ok_iff, Res.pure_eq, Res.ok.injEq] at hv
+  · obtain ⟨b, hb', rfl⟩ := hv
+    cases eq_ok_general hb' with
+    | int ty w hw hf x' y' rx ry hxy =>
+      have h1 := congrArg (Option.map (·.ty)) rx
+      simp only [jitRepr_F64, Option.map_some, CVal.f64_ty, CVal.ofBv_ty, Option.some.injEq] at h1
+      subst h1; exact absurd hf (by decide)
+    | f32 x' y' rx ry hxy => cases rx
+    | f64 x' y' rx ry hxy => cases rx; cases ry; rw [hxy]
+  · obtain ⟨b, ⟨b', hb', rfl⟩, rfl⟩ := hv
+    cases eq_ok_general hb' with
+    | int ty w hw hf x' y' rx ry hxy =>
+      have h1 := congrArg (Option.map (·.ty)) rx
+      simp only [jitRepr_F64, Option.map_some, CVal.f64_ty, CVal.ofBv_ty, Option.some.injEq] at h1
+      subst h1; exact absurd hf (by decide)
+    | f32 x' y' rx ry hxy => cases rx
+    | f64 x' y' rx ry hxy => cases rx; cases ry; rw [hxy]
 
 /-! ### summary: every scalar arm -/
 
@@ -407,7 +520,7 @@ def ScalarInstr.jit (dbg : Bool) (signed : Bool) : ScalarInstr → CVal → CVal
 /-- what Cranelift's verifier checked for the two comparison instructions (the only arms where
     the evaluator accepts more than the verifier). -/
 def ScalarInstr.Verified : ScalarInstr → CVal → CVal → Prop
-  | .IntCmp _, l, r => l.ty = r.ty
+  | .IntCmp _, l, r => l.ty = r.ty ∧ l.ty.isFloat = false
   | .FloatCmp _, l, r => l.ty = r.ty ∧ l.ty.isFloat = true
   | _, _, _ => True
 
@@ -417,7 +530,7 @@ theorem eval_agrees_or_panics [FloatLaws] (dbg : Bool) (i : ScalarInstr) (l r : 
     (hl : jitRepr l = some cl) (hr : jitRepr r = some cr) (hv : i.Verified cl cr) :
     Agrees (i.eval dbg l r) (i.jit dbg (signedOf l) cl cr) := by
   cases i
-  case IntCmp cmp => exact eval_IntCmp_agrees dbg cmp l r cl cr hl hr hv
+  case IntCmp cmp => exact eval_IntCmp_agrees dbg cmp l r cl cr hl hr hv.1 hv.2
   case FloatCmp cmp => exact eval_FloatCmp_agrees dbg cmp l r cl cr hl hr hv.1 hv.2
   case Not => exact eval_Not_agrees dbg l cl hl
   case Negate => exact eval_Negate_agrees dbg l cl hl
@@ -429,12 +542,15 @@ theorem eval_agrees_or_panics [FloatLaws] (dbg : Bool) (i : ScalarInstr) (l r : 
   case Mod => exact eval_Mod_agrees dbg l r cl cr hl hr
 
 /-- non-vacuity: the hypotheses are satisfiable for every instruction (each `IrValue` has a JIT
-    representation; equal float operands are `Verified`), and an arm completes. -/
+    representation; equal integer operands are `Verified` for `IntCmp`, equal float operands for every
+    other instruction), and an arm completes. -/
 example (i : ScalarInstr) (x : F64) :
-    (∃ cl, jitRepr (.F64 x) = some cl ∧ i.Verified cl cl)
+    (∃ v cl, jitRepr v = some cl ∧ i.Verified cl cl)
     ∧ ScalarInstr.eval true .Add (.U8 (.ofInt _ _ 1)) (.U8 (.ofInt _ _ 2)) = .ok (.U8 (.ofInt _ _ 3)) := by
-  refine ⟨⟨_, jitRepr_F64 x, ?_⟩, by rfl⟩
-  cases i <;> simp [ScalarInstr.Verified, CTy.isFloat]
+  refine ⟨?_, by rfl⟩
+  cases i
+  case IntCmp cmp => exact ⟨.U8 (.ofInt _ _ 1), _, jitRepr_U8 _, rfl, rfl⟩
+  all_goals exact ⟨.F64 x, _, jitRepr_F64 x, by simp [ScalarInstr.Verified, CTy.isFloat]⟩
 
 end
 end RotoV.C20
